@@ -5,12 +5,12 @@
 (* budget bound in every window, and only the caller's subnet is charged.    *)
 EXTENDS TraceBase, LimiterOps
 
-VARIABLES l, cfg, bucket, adm, seen
-tvars == <<l, cfg, bucket, adm, seen>>
+VARIABLES l, cfg, bucket, adm, seen, glob
+tvars == <<l, cfg, bucket, adm, seen, glob>>
 EntryTtl == 60000   \* entryTtl (one minute) in trace time units
 
-NoCfg == [limit |-> 0, burst |-> 0, v4 |-> 0, v6 |-> 0]
-Init == l = 1 /\ cfg = NoCfg /\ bucket = <<>> /\ adm = <<>> /\ seen = <<>> /\ InitMark
+NoCfg == [limit |-> 0, burst |-> 0, v4 |-> 0, v6 |-> 0, glimit |-> 0]
+Init == l = 1 /\ cfg = NoCfg /\ bucket = <<>> /\ adm = <<>> /\ seen = <<>> /\ glob = Full(0, 0) /\ InitMark
 
 IsEvent(e) == l <= Len(Trace) /\ Trace[l].ev = e /\ l' = l + 1 /\ Mark(l)
 
@@ -19,8 +19,10 @@ EffBurst(c) == IF c.burst <= 0 THEN c.limit ELSE c.burst
 RateOf(c) == c.limit      \* tokens per second = milli-tokens per millisecond
 
 NewCfg == /\ IsEvent("lim.cfg")
-          /\ cfg' = [limit |-> Trace[l].limit, burst |-> Trace[l].burst, v4 |-> Trace[l].v4, v6 |-> Trace[l].v6]
+          /\ cfg' = [limit |-> Trace[l].limit, burst |-> Trace[l].burst, v4 |-> Trace[l].v4, v6 |-> Trace[l].v6,
+                      glimit |-> IF Has(Trace[l], "glimit") THEN Trace[l].glimit ELSE 0]
           /\ bucket' = <<>> /\ adm' = <<>> /\ seen' = <<>>
+          /\ glob' = Full(IF Has(Trace[l], "glimit") THEN Trace[l].glimit ELSE 0, IF Has(Trace[l], "t") THEN Trace[l].t ELSE 0)
 
 BucketOf(k, t) == IF k \in DOMAIN bucket THEN bucket[k] ELSE Full(EffBurst(cfg), t)
 
@@ -53,7 +55,7 @@ Call == /\ IsEvent("lim.v")
                                    ELSE After(bk, RateOf(cfg), EffBurst(cfg), ev.t, ev.n)]
               /\ seen' = [x \in DOMAIN seen \cup {k} |-> IF x = k THEN ev.t ELSE seen[x]]
               /\ adm' = Trunc(adm2)
-        /\ UNCHANGED cfg
+        /\ UNCHANGED <<cfg, glob>>
 
 \* ClientLimiter.gc at time t: the specification forgets exactly the buckets whose forgetting cannot be
 \* observed (idle for more than a minute AND full again); a bucket the code forgets although it is in use
@@ -64,9 +66,27 @@ Gc == /\ IsEvent("lim.gc")
                                            /\ Refilled(bucket[k], RateOf(cfg), EffBurst(cfg), t) = EffBurst(cfg) * 1000}
          IN /\ bucket' = [x \in DOMAIN bucket \ drop |-> bucket[x]]
             /\ seen' = [x \in DOMAIN seen \ drop |-> seen[x]]
-      /\ UNCHANGED <<cfg, adm>>
+      /\ UNCHANGED <<cfg, adm, glob>>
 
-Next == NewCfg \/ Call \/ Gc
+\* the router's resource limiter (app/router/limiter.go): the shared global bucket (rate = burst = glimit) is
+\* asked first; a query it refuses does not touch the client's bucket, so a subnet within its own budget is
+\* refused only while the GLOBAL budget is exhausted. res: "ok" | "global" | "client"
+RCall == /\ IsEvent("lim.r")
+         /\ LET ev == Trace[l]
+                k == KeyM(ev.addr, cfg.v4, cfg.v6)
+                bk == BucketOf(k, ev.t)
+                gOk == cfg.glimit = 0 \/ Allows(glob, cfg.glimit, cfg.glimit, ev.t, ev.n)
+                cOk == Allows(bk, RateOf(cfg), EffBurst(cfg), ev.t, ev.n)
+                want == IF ~gOk THEN "global" ELSE IF ~cOk THEN "client" ELSE "ok"
+            IN /\ Report(l, IF ev.res = want THEN {}
+                             ELSE IF ev.res = "ok" THEN {"Inv_C15_Decision_overAdmit"} ELSE {"Inv_C15_Isolation_refusedWithinBudget"})
+               /\ glob' = IF cfg.glimit = 0 THEN glob ELSE After(glob, cfg.glimit, cfg.glimit, ev.t, ev.n)
+               /\ bucket' = IF gOk THEN [x \in DOMAIN bucket \cup {k} |-> IF x = k THEN After(bk, RateOf(cfg), EffBurst(cfg), ev.t, ev.n) ELSE bucket[x]]
+                             ELSE bucket
+               /\ seen' = IF gOk THEN [x \in DOMAIN seen \cup {k} |-> IF x = k THEN ev.t ELSE seen[x]] ELSE seen
+         /\ UNCHANGED <<cfg, adm>>
+
+Next == NewCfg \/ Call \/ Gc \/ RCall
 Spec == Init /\ [][Next]_tvars
 Post == Consumed
 =============================================================================
